@@ -539,6 +539,7 @@ class Program:
             j = json.load(f)
         import anchors
         self.renamed_fields = anchors.canonicalise(j)
+        self.rebound_fns = anchors.rebind_functions(j)
         self.j = j
         self.nonce = j.get('nonce')
         self.crate = j.get('crate')
